@@ -480,6 +480,7 @@ func (g *gen) nestParams(fields []Param, lbl string, depth int) Param {
 }
 
 type rleaf struct {
+	rep     bool
 	slt     string
 	zero    bool
 	key     MKey
@@ -491,7 +492,7 @@ type rleaf struct {
 }
 
 func (l rleaf) result() Result {
-	return Result{T: l.key.T, Impl: l.impl, Name: l.key.Name, Group: l.key.Group, Flatten: l.flatten, N: l.n, Nil: l.nilsl, Slice: l.slice, Zero: l.zero, SlT: l.slt}
+	return Result{T: l.key.T, Impl: l.impl, Name: l.key.Name, Group: l.key.Group, Flatten: l.flatten, N: l.n, Nil: l.nilsl, Slice: l.slice, Zero: l.zero, SlT: l.slt, Rep: l.rep}
 }
 
 func (g *gen) encodeResults(leaves []rleaf, forceObj bool) []Result {
@@ -630,6 +631,7 @@ func (g *gen) genProvide(s int) Op {
 				l.flatten = true
 				l.n = g.pick(4, lbl+"n")
 				l.nilsl = l.n == 0 && g.pct(50, lbl+"nil")
+				l.rep = l.n >= 2 && g.pct(12, lbl+"rep")
 				if g.pct(g.k.PNamedSlice, lbl+"nsl") {
 					l.slt = g.pickStr([]string{"A", "B"}, lbl+"nslv")
 				}
